@@ -26,6 +26,9 @@ namespace ratio
 
     private:
       void apply() override;
+
+    private:
+      const smt::lit p; // the chosen literal..
     };
 
   private:
